@@ -62,7 +62,9 @@ inductive Resp where
   | illFormed                  -- target/guard combination that no endpoint has
 deriving DecidableEq, Repr
 
-def find (l : List Res) (id : String) : Option Res := l.find? (fun r => r.id = id)
+def find : List Res → String → Option Res
+  | [], _ => none
+  | r :: rest, id => if r.id = id then some r else find rest id
 
 def guarded (l : List Res) (id : String) (user : List String) : Resp :=
   match find l id with
@@ -163,7 +165,9 @@ inductive Event where
   | disconnect (u : String)
 deriving DecidableEq, Repr
 
-def findU (l : List UnitSt) (u : String) : Option UnitSt := l.find? (fun x => x.id = u)
+def findU : List UnitSt → String → Option UnitSt
+  | [], _ => none
+  | x :: rest, u => if x.id = u then some x else findU rest u
 
 def setRoles (u : String) (roles : List String) (l : List UnitSt) : List UnitSt :=
   l.map (fun x => if x.id = u then { x with roles := roles } else x)
